@@ -19,10 +19,7 @@
      h_js       = self._job_status (None unless deserialize_jobs),
      h_promoted = GHOST: what the calling CLI remembers ("promoted" returned true / create, and it has
                   not demoted successfully since).  It never influences the model's behaviour.
-   Every operation runs under the cluster lock, i.e. atomically, except prepare_for_resubmission
-   ("Locking is not required for this function"), which is therefore split into separately interleavable
-   steps HPrepMutate / HCheckCfgNL / HCheckJsNL / HSerializeNL / HSerializeJobsNL (each file-level
-   compare+write of _serialize is still taken as one step).
+   Every operation runs under the cluster lock, i.e. atomically.
 
    Followed exactly (and exercised by the correspondence):
    * _serialize: read the VERSION FILE, compare with the in-memory version, raise ConfigVersionMismatch
@@ -32,7 +29,8 @@
      self._config_hash (sic), which never matches => it always writes.
    * _update_job_status: mutate memory, compare BOTH versions, then _serialize, _serialize_jobs
      (before the fix "reject a stale job-status copy before the cluster config is written" the second
-     compare came after the first write: `update_old` / update_old_partial_write in ClusterProofs.v).
+     compare came after the first write: `update_old` / update_old_partial_write in ClusterProofs.v);
+     prepare_for_resubmission does the same under the lock.
    * in-memory mutations made before an exception stay in the handle.
    * am_i_submitter compares HOST NAMES.
    Not modelled: serialize=False variants (no caller), Timeout while the lock is held by a live
@@ -153,13 +151,12 @@ Inductive hop :=
                                                hpc_job_ids := ids *)
 | HCompleteHpc (id : N)                     (* complete_hpc_job_id *)
 | HReloadJobs                               (* deserialize_jobs() *)
-| HPrepMutate (v : N)                       (* prepare_for_resubmission, in-memory part: is_complete := False,
-                                               is_canceled := False, submitted_jobs := v (recounted from the job table) *)
-| HCheckCfgNL | HCheckJsNL                  (* its two up-front version checks, *)
-| HSerializeNL | HSerializeJobsNL.          (* and its two writes, all NOT under the lock *)
+| HPrepare (v : N).                         (* prepare_for_resubmission: is_complete := False, is_canceled := False,
+                                               submitted_jobs := v (recounted from the job table), both files written *)
 
-Definition locked (o : hop) : bool :=
-  match o with HPrepMutate _ | HCheckCfgNL | HCheckJsNL | HSerializeNL | HSerializeJobsNL => false | _ => true end.
+(* every operation runs under the cluster lock (prepare_for_resubmission too, since "prepare_for_resubmission
+   holds the cluster lock while it rewrites both status files") *)
+Definition locked (o : hop) : bool := match o with HPromote => true | _ => true end.   (* = true for every o *)
 
 (* Cluster._promote_to_submitter *)
 Definition promote (d : disk) (h : handle) : result * disk * handle :=
@@ -183,8 +180,8 @@ Definition act (o : hop) (d : disk) (h : handle) : result * disk * handle :=
     if c_complete (h_cfg h) then (RAssertion, d, h)
     else ser_cfg d (h_with_cfg h (cfg_with_complete (h_cfg h) true))
   | HMarkCanceled => ser_cfg d (h_with_cfg h (cfg_with_canceled (h_cfg h) true))
-  | HSerialize | HSerializeNL => ser_cfg d h
-  | HSerializeJobs | HSerializeJobsNL => ser_js d h
+  | HSerialize => ser_cfg d h
+  | HSerializeJobs => ser_js d h
   | HUpdate k b ids =>
     match h_js h with
     | None => (RAttrError, d, h)
@@ -203,14 +200,13 @@ Definition act (o : hop) (d : disk) (h : handle) : result * disk * handle :=
       end
     end
   | HReloadJobs => (ROk, d, h_with_js h (Some (d_js d)))
-  | HCheckCfgNL => chk_cfg d h
-  | HCheckJsNL => chk_js d h
-  | HPrepMutate v =>
+  | HPrepare v =>
     if c_complete (h_cfg h) then
       let h1 := h_with_cfg h (cfg_with_submitted (cfg_with_canceled (cfg_with_complete (h_cfg h) false) false) v) in
       match h_js h with
       | None => (RAssertion, d, h1)          (* iter_jobs: assert self._job_status is not None *)
-      | Some _ => (ROk, d, h1)
+      | Some _ =>
+        and_then (chk_cfg d h1) (fun d h => and_then (chk_js d h) (fun d h => and_then (ser_cfg d h) ser_js))
       end
     else (RAssertion, d, h)
   end.
@@ -276,19 +272,6 @@ Definition create (host : N) : state :=
   let '(_, d1, h1) := and_then (ser_cfg d0 h0) ser_js in
   mkS d1 false [h1].
 
-(* prepare_for_resubmission as one call (used by the correspondence): the five steps, stopping
-   at the first exception *)
-Definition prepare_resub (s : state) (i : nat) (v : N) : result * state :=
-  let '(r1, s1) := step s (Do i (HPrepMutate v)) in
-  if negb (result_eqb r1 ROk) then (r1, s1) else
-  let '(r2, s2) := step s1 (Do i HCheckCfgNL) in
-  if negb (result_eqb r2 ROk) then (r2, s2) else
-  let '(r3, s3) := step s2 (Do i HCheckJsNL) in
-  if negb (result_eqb r3 ROk) then (r3, s3) else
-  let '(r4, s4) := step s3 (Do i HSerializeNL) in
-  if negb (result_eqb r4 ROk) then (r4, s4) else
-  step s4 (Do i HSerializeJobsNL).
-
 (* --- the CLI protocol ---------------------------------------------------------------------------- *)
 (* "a handle calls demote_from_submitter only if its own promotion succeeded and it has not demoted
    since": a boolean predicate on the operation sequence (evaluated along the run). *)
@@ -310,10 +293,10 @@ Definition holds (s : state) (i : nat) : Prop :=
 (* --- interface used by the correspondence (harness/clusterdrv.py) ------------------------------- *)
 Inductive dop :=
 | DOp (o : op)
-| DPrep (i : nat) (v : N).        (* handle.prepare_for_resubmission(...) as one call *)
+| DPrep (i : nat) (v : N).        (* handle.prepare_for_resubmission(...) *)
 
 Definition dstep (s : state) (o : dop) : result * state :=
-  match o with DOp o => step s o | DPrep i v => prepare_resub s i v end.
+  match o with DOp o => step s o | DPrep i v => step s (Do i (HPrepare v)) end.
 
 (* what the driver can see of a handle: host, in-memory config, "memory equals what I wrote last",
    in-memory job status *)
